@@ -270,8 +270,13 @@ func c07Snapshots(c *Ctx) {
 						})
 					}
 					for i, av := range vals {
-						am, ok := av.V.(*ssa.MakeMap)
-						if !ok {
+						var am ssa.Value
+						if k, ok := av.V.(*ssa.MakeMap); ok {
+							am = k
+						} else if call, ok := strip(av).V.(*ssa.Call); ok && returnsFreshMap(c, call.Call.StaticCallee(), 0) {
+							am = call // made for this caller by a helper that returns a fresh map
+						}
+						if am == nil {
 							bad = "caller at " + c.pos(ats[i].Pos()) + " passes a map it did not make itself: " + abbreviate(av.String())
 							continue
 						}
